@@ -40,6 +40,8 @@ def check_lane_semantics(c, m, stim, s1, mask):
     return None
 
 THEOREMS += ['C02_logicsim_chain_agrees_trace', 'C02_logicsim_drivers_source_is_model_partial']
+THEOREMS += ['C02_logicsim_iteration_source_is_model', 'C02_logicsim_loop_source_is_model', 'C02_logicsim_loop_source_nonvacuous',
+             'C02_logicsim_separation_build', 'C02_logicsim_drivers_source_is_model', 'C02_logicsim_drivers_source_nonvacuous']
 
 
 def run(ck):
@@ -55,6 +57,8 @@ def run(ck):
     nrng = np.random.default_rng(ck.seed + 2)
     ncirc = ck.scale(50, 1200)
     coq_cases, meta, fails = [], [], []
+    from harness import lsim_full_corr as lf
+    sep_cases, sep_real, sep_meta = [], [], []
     for i in range(ncirc):
         m = rng.choice([4, 8])
         values = [0, 1, 2, 3] if m == 4 or rng.random() < 0.3 else ([0, 3, 5, 6, 4, 7] if rng.random() < 0.5 else list(range(8)))
@@ -73,6 +77,11 @@ def run(ck):
         sim, s1, s0 = res
         mask = lc.ppo_mask(sim)
         ck.nontrivial(sk.circuit_fingerprint(c) + (m,))
+        if i % 2 == 0:
+            # hypothesis of C02_logicsim_loop_source_is_model: o0 / t0 / t1 own their locations (verdict of the Coq build() and of the real arrays)
+            sep_cases.append(lf.sep_case(c, reuse, strip))
+            sep_real.append(lf.real_sep(sim))
+            sep_meta.append(desc)
         what = check_lane_semantics(c, m, stim, s1, mask)
         if what:
             fails.append(('value', desc, what))
@@ -99,6 +108,20 @@ def run(ck):
         mism += [ci * 120 + j for j in idx]
     ck.obligation(f'Coq model (SimOps.build + memory-level c_prop with spec_prim) = LogicSim(m=4|8) on {len(coq_cases)} lanes',
                   allok and not mism, 'correspondence', f'failing cases {mism[:10]}')
+    if sep_cases:
+        oks, outs_ = ck.coq_eval('sep', lf.sep_file(sep_cases))
+        verd = cg.parse_nat_list(outs_) if oks else None
+        bad = None if verd is None or len(verd) != len(sep_cases) else [j for j, (v, r) in enumerate(zip(verd, sep_real)) if v == 0 or v == 3 or r == 0 or v != r]
+        ck.count(0 if verd is None else sum(1 for v in verd if v == 1), 'circuits whose memory map passes the separation check ops_sep_b')
+        ck.obligation(f'separation hypothesis of C02_logicsim_loop_source_is_model (c_locs[tmp_idx], c_locs[tmp2_idx] and the location of every op output '
+                      f'differ from each other and from the op\'s operand locations) holds on {len(sep_cases)} generated circuits -- verdict of ops_sep_b on the '
+                      'Coq build() = verdict on the real sim.ops / sim.c_locs; circuits with a gate without output line (it writes the scratch slot) are outside',
+                      bad == [], 'certificate', '' if bad == [] else (f'failing cases {bad[:10]}' if bad is not None else outs_[-600:]))
+        if bad and not fails:
+            for j in bad[:2]:
+                ck.fail('separation', 'memory map lets the output / scratch locations of an op overlap its operands (or model and real arrays disagree)',
+                        {'component': 'sim.SimOps memory map (Proofs/LogicSimLoop8.v: ops_sep_b)', 'input': sep_meta[j],
+                         'broken': ['certificate ops_sep_b']}, found_input=False)
     ck.trust('modelled, not verified: SimOps.__init__, LogicSim.s_to_c/c_to_s (Model/SimOps.v, Model/LogicSimModel.v; correspondence); '
              'proved about that model (Proofs/LogicSimGlue.v, C02_logicsim_model_correct): for every well-formed acyclic netlist of known gates, any '
              'c_reuse / strip_forks and any stimulus the compared entry point sim_case8 returns the gate-by-gate composition of the documented '
